@@ -23,7 +23,34 @@ func (c *Config) verify() error {
 		return err
 	}
 
+	// Both listeners are started in the same process: the second bind of one address fails and takes the
+	// process down at the next start. (With dashboard and API both disabled the webserver does not listen.)
+	webserverListens := !(c.Webserver.DashboardDisabled.Read() && c.Webserver.ApiDisabled.Read())
+	if webserverListens && listenAddressesCollide(c.Proxy.Listen.Read(), c.Webserver.Listen.Read()) {
+		return fmt.Errorf("proxy.listen and webserver.listen name the same address")
+	}
+
 	return nil
+}
+
+// Reports whether two listen addresses (already known to be of the form host:port with a usable port)
+// cannot both be bound: the same port on the same host, or on all interfaces on either side.
+func listenAddressesCollide(a, b string) bool {
+	hostA, portA, errA := net.SplitHostPort(a)
+	hostB, portB, errB := net.SplitHostPort(b)
+	if errA != nil || errB != nil {
+		return false
+	}
+	numA, errA := net.LookupPort("tcp", portA)
+	numB, errB := net.LookupPort("tcp", portB)
+	if errA != nil || errB != nil || numA != numB {
+		return false
+	}
+	if numA == 0 {
+		return false // the system picks a free port for each listener
+	}
+	wildcard := func(h string) bool { return h == "" || h == "0.0.0.0" || h == "::" }
+	return wildcard(hostA) || wildcard(hostB) || hostA == hostB
 }
 
 func checkIsSetRecursive(val reflect.Value) error {
